@@ -29,6 +29,9 @@ def main():
         tiers = []
     meta = json.load(open(os.path.join(seed, 'meta.json')))
     prop = meta['property']
+    for a in sys.argv:
+        if a.startswith('--prop='):  # run another property's check against this change
+            prop = a.split('=', 1)[1]
     res = {'seed': seed, 'property': prop}
     wt = tempfile.mkdtemp(prefix='seedeval-', dir='/tmp')
     os.rmdir(wt)
